@@ -15,6 +15,7 @@ package main
 import (
 	"go/ast"
 	"go/token"
+	"strconv"
 	"go/types"
 	"sort"
 	"strings"
@@ -570,5 +571,129 @@ func init() {
 		for _, o := range r.Obs {
 			println(o.Verdict, o.Construct, o.Pos, o.Msg)
 		}
+	}
+}
+
+// parens.looseformat (C05): the GLSL writer builds expression text as strings and
+// composes them by substitution, so every piece must be self-delimiting. A
+// format literal returned (through fmt.Sprintf) by a function that writes an
+// expression kind - result (string, error) - must not contain a binary operator
+// at parenthesis depth 0: `%s | (%s << 8)` substituted into `X * 2u` multiplies
+// only the last term.
+func (c *Ctx) runLooseFormat(r *Report, rule string, pkg string, exceptions map[string]string) {
+	n := 0
+	ops := []string{" | ", " & ", " ^ ", " + ", " - ", " * ", " / ", " % ", " << ", " >> ", " ? ", " < ", " > ", " <= ", " >= ", " == ", " != ", " && ", " || "}
+	looseOp := func(s string) string {
+		depth := 0
+		for i := 0; i < len(s); i++ {
+			switch s[i] {
+			case '(', '[':
+				depth++
+			case ')', ']':
+				depth--
+			}
+			if depth == 0 {
+				for _, op := range ops {
+					if strings.HasPrefix(s[i:], op) {
+						return strings.TrimSpace(op)
+					}
+				}
+			}
+		}
+		return ""
+	}
+	for _, fn := range c.allFuncs() {
+		if fn.Pkg.Rel != pkg || fn.Obj == nil {
+			continue
+		}
+		sig := fn.Obj.Type().(*types.Signature)
+		if sig.Results().Len() != 2 || sig.Results().At(1).Type().String() != "error" {
+			continue
+		}
+		if b, ok := sig.Results().At(0).Type().Underlying().(*types.Basic); !ok || b.Kind() != types.String {
+			continue
+		}
+		// expression writers only: a parameter whose type is an ir expression kind / handle
+		isExprWriter := false
+		for i := 0; i < sig.Params().Len(); i++ {
+			tn := irTypeName(sig.Params().At(i).Type())
+			if strings.HasPrefix(tn, "Expr") || tn == "ExpressionHandle" {
+				isExprWriter = true
+			}
+		}
+		if !isExprWriter {
+			continue
+		}
+		info := fn.Pkg.Info
+		ord := 0
+		caseOrd := map[string]int{}
+		ast.Inspect(fn.Decl.Body, func(m ast.Node) bool {
+			rs, ok := m.(*ast.ReturnStmt)
+			if !ok || len(rs.Results) != 2 {
+				return true
+			}
+			call, ok := ast.Unparen(rs.Results[0]).(*ast.CallExpr)
+			if !ok || len(call.Args) == 0 {
+				return true
+			}
+			f := calleeOf(info, call)
+			if f == nil || f.Name() != "Sprintf" {
+				return true
+			}
+			lit, ok := ast.Unparen(call.Args[0]).(*ast.BasicLit)
+			if !ok {
+				return true
+			}
+			s, err := strconv.Unquote(lit.Value)
+			if err != nil {
+				return true
+			}
+			n++
+			ord++
+			cons := fn.id() + ":return#" + itoa(ord)
+			// keyed by the innermost enclosing case label when there is one
+			var best *ast.CaseClause
+			ast.Inspect(fn.Decl.Body, func(k ast.Node) bool {
+				if cc, ok := k.(*ast.CaseClause); ok && cc.Pos() <= rs.Pos() && rs.End() <= cc.End() && len(cc.List) > 0 {
+					best = cc
+				}
+				return true
+			})
+			if best != nil {
+				lab := types.ExprString(best.List[0])
+				if i := strings.LastIndex(lab, "."); i >= 0 {
+					lab = lab[i+1:]
+				}
+				caseOrd[lab]++
+				cons = fn.id() + ":case:" + strings.ReplaceAll(lab, " ", "") + "#" + itoa(caseOrd[lab])
+			}
+			if op := looseOp(s); op != "" {
+				if why := exceptions[cons]; why != "" {
+					r.exc(rule, cons, c.pos(rs.Pos()), why)
+				} else {
+					r.viol(rule, cons, c.pos(rs.Pos()), fn.id()+" returns the expression text "+lit.Value+" with the operator "+op+" outside any parentheses: substituted as an operand of a tighter-binding operator it is re-associated")
+				}
+			} else {
+				r.ok(rule, cons, c.pos(rs.Pos()), "")
+			}
+			return true
+		})
+	}
+	r.inst("parens.looseformat", n)
+}
+
+func init() {
+	dumpers["looseformat"] = func(c *Ctx, parts []string) {
+		r := newReport("dump")
+		c.runLooseFormat(r, "parens.looseformat", "glsl/internal/codegen", nil)
+		nOK := 0
+		for _, o := range r.Obs {
+			if o.Verdict == "ok" {
+				nOK++
+				continue
+			}
+			println(o.Verdict, o.Construct, o.Pos, o.Msg)
+		}
+		println("ok:", nOK)
 	}
 }
